@@ -31,6 +31,7 @@ RULE = ('one evaluation = one simulated run of a sampled workload (victim proces
         'thorough tier, a sample in the quick tier; a torn prefix of the chunk being written is left behind); afterwards survivors '
         'finish and a fresh process opens the directory. Plus real-SIGKILL child runs. Non-trivial = the kill fired inside an '
         'operation; distinct = SHA-256 of the seam event log')
+RULE += ' ' + 'One cache workload in seven uses a Disk subclass that names each value file after its key (a refusal with FileExistsError counts as a no-op).'
 ASSUMPTIONS = ['in-process kill: after the kill instant no task of the victim has any further effect and its descriptors are closed '
                '(what the OS does for SIGKILL); power loss is not modelled',
                'real-kill mode: single victim, kill instant derived from the seed (seam step or progress-handler tick)']
